@@ -18,7 +18,7 @@ for d in sorted((root / "seeded").iterdir()):
     rows.append(f"| {d.name} | {one(m.get('summary', ''), 200)} | {one(m.get('needs', ''), 160)} | {res} |")
     total += 1
 table = "| seed | change | needs | result |\n|---|---|---|---|\n" + "\n".join(rows) + "\n"
-tail = (f"\nRounds of independent seeds so far: {total} changes (suffix `b` ... `j` = rounds 2 ... 10, each asked for mechanisms and code sites "
+tail = (f"\nRounds of independent seeds so far: {total} changes (suffix `b` ... `k` = rounds 2 ... 11, each asked for mechanisms and code sites "
         f"different from the earlier ones). All are flagged by the check of their own property, with two exceptions stated in their `meta.json`: "
         f"C10i is flagged by C03 (the failure it causes is a run that never ends) and C02g by the thorough tier only; {len(late)} of them only after the strengthening "
         f"recorded in 10.5 and in their `meta.json` ({', '.join(late)}).\n")
